@@ -303,7 +303,7 @@ def design_and_cases(ctx, n, w, lazy):
     cfg = "MCPool_%d_%d_%s.cfg" % (n, w, lazy)
     with open(os.path.join(d, cfg), "w") as f:
         f.write("CONSTANTS N = %d W = %d Lazy = %s\nSPECIFICATION FairSpec\nINVARIANT DesignRefinesProps\n"
-                "INVARIANT PrefixSafe\nINVARIANT Emit\nPROPERTY Done\n" % (n, w, "TRUE" if lazy else "FALSE"))
+                "INVARIANT PrefixSafe\nINVARIANT Emit\nPROPERTY Done\nPROPERTY RefinesInd\n" % (n, w, "TRUE" if lazy else "FALSE"))
     res = ctx.tlc(d, "PoolDesign", cfg, workers=16, coverage=False, timeout=5400)
     seen, out = set(), []
     for c in res.tagged("CASE"):
@@ -351,6 +351,11 @@ def run(ctx):
                 "typhon.files.fileset.ThreadPoolExecutor lets tasks finish in exactly that order; the recorded "
                 "submit/start/finish/consume/raise events are validated against PoolProps by TLC (PoolTrace). "
                 "Non-trivial: schedules with an out-of-order completion or a failing file.")
+    # unbounded part: the window / running / in-order invariant of the history-free PoolWindowInd (which PoolDesign refines,
+    # PROPERTY RefinesInd) is inductive for ALL N, W <= 12 and both modes (symbolic constants, Apalache)
+    from vlib import apalache
+    apalache.inductive(ctx, ctx.tlc_dir("pool"), "PoolWindowInd", cinit="ConstInit",
+                       negative={"(Lazy => sub - cons < W)": "(Lazy => sub - cons <= W)"})
     configs = [(4, 2, True), (3, 2, False), (3, 1, True)] if quick else \
         [(5, 2, True), (5, 3, True), (5, 1, True), (4, 2, False), (4, 3, False)]      # (n = 6, and n = 5 for map, exceed 10^8 event prefixes)
     items = []
